@@ -186,11 +186,183 @@ func c09(r *rng, tier string, o *out) {
 	}
 }
 
+// c08systematic: one tile request against one archive name, every placement of up to two replacements among the
+// bucket calls of that request (before the k-th release, k = 0..calls), with a cold or warm cache and with or without a
+// replacement completed before the request begins. Versions have different layouts and random tile data, so bytes cut
+// out of one version at another version's offset are no version's tile.
+func c08systematic(r *rng, o *out, sets int) {
+	for s := 0; s < sets; s++ {
+		mk := func(sr *srvRun, tag int) *srvVersion {
+			// every version stores the same tile ids (so a retry finds the tile again) with its own lengths, offsets and bytes,
+			// and the same tile type (the extension check uses the cached header and must not end the request early)
+			vr := &rng{s: r.s + uint64(tag)*7919}
+			ir := &rng{s: r.s + uint64(s)*104729}
+			ne := 3 + ir.intn(5)
+			var es []Ent
+			id, off := uint64(ir.intn(3)), uint64(0)
+			for i := 0; i < ne; i++ {
+				run := uint32(1 + ir.intn(3))
+				l := uint32(1 + vr.intn(40))
+				es = append(es, Ent{ID: id, Off: off, Len: l, Run: run})
+				off += uint64(l)
+				id += uint64(run) + uint64(ir.intn(3))
+			}
+			zmax, _, _ := pmtiles.IDToZxy(es[len(es)-1].ID + uint64(es[len(es)-1].Run))
+			a := buildArchive(vr, es, vr.bytes(int(off)), archOpts{tree: treeOpts{depth: vr.intn(2), fan: 2, gzip: vr.chance(50), shorthand: true},
+				tileType: 2, tileComp: 1, meta: fmt.Sprintf(`{"v":%d}`, tag), minZoom: 0, maxZoom: zmax})
+			v := &srvVersion{id: len(sr.versions), name: 0, tag: tag, arch: a}
+			sr.versions = append(sr.versions, v)
+			return v
+		}
+		for warm := 0; warm < 2; warm++ {
+			for pre := 0; pre < 2; pre++ {
+				for p1 := 0; p1 <= 7; p1++ {
+					for p2 := p1; p2 <= 7; p2++ {
+						if p1 == 7 && p2 == 7 && (warm == 0 || pre == 0) && s > 0 {
+							continue // no replacement during the request: covered by the random runs
+						}
+						sr := newSrvRun(64)
+						tag := 1
+						v := mk(sr, tag)
+						sr.install(v)
+						if warm == 1 {
+							z, x, y, ext := pickQuery(&rng{s: r.s + 11}, v)
+							sr.start(0, z, x, y, ext)
+							for g := 0; g < 20; g++ {
+								pend := sr.gate.pendingList()
+								if len(pend) == 0 {
+									break
+								}
+								sr.release(pend[0], "ok")
+							}
+						}
+						if pre == 1 {
+							tag++
+							v = mk(sr, tag)
+							sr.install(v)
+						}
+						// the request asks for a stored tile of the version current when it starts (first / last / a middle entry by turns)
+						es := v.arch.Ents
+						e := es[((p1+p2+s)*7+warm+2*pre)%len(es)]
+						zz, xx, yy := pmtiles.IDToZxy(e.ID + uint64(e.Run)/2)
+						sr.start(0, uint64(zz), uint64(xx), uint64(yy), int(v.arch.H.TileType))
+						for k := 0; k < 40; k++ {
+							for _, p := range []int{p1, p2} {
+								if p == k && p < 7 {
+									tag++
+									nv := mk(sr, tag)
+									sr.install(nv)
+								}
+							}
+							if p1 == k && p2 == k && p1 < 7 { // two replacements at the same point: the second was installed above as well
+							}
+							pend := sr.gate.pendingList()
+							if len(pend) == 0 {
+								break
+							}
+							sr.release(pend[0], "ok")
+						}
+						sr.gate.releaseAll()
+						sr.checkResponses(false)
+						finishRun(o, "C08", sr, 64, true, fmt.Sprintf("systematic_warm%d_pre%d", warm, pre))
+					}
+				}
+			}
+		}
+	}
+}
+
+// c08micro: interleavings inside the cache event loop that bucket gating alone cannot produce. The loop is held (through the trace
+// sink) while it processes request P's header lookup; meanwhile request Q's stale tile read is released, so Q's retry (which purges
+// the stale version) queues up first; when the loop is thawed it serves P's header from the cache, then purges, then sees P's root
+// lookup. Both requests began after the replacement completed, so neither may fail.   case: micro <seed> <variant>
+func c08microRun(seed uint64, variant int) []string {
+	r := &rng{s: seed}
+	sr := newSrvRun(64)
+	mk := func(tag int) *srvVersion {
+		vr := &rng{s: seed + uint64(tag)*7919}
+		ir := &rng{s: seed * 31}
+		ne := 3 + ir.intn(5)
+		var es []Ent
+		id, off := uint64(ir.intn(3)), uint64(0)
+		for i := 0; i < ne; i++ {
+			run := uint32(1 + ir.intn(3))
+			l := uint32(1 + vr.intn(40))
+			es = append(es, Ent{ID: id, Off: off, Len: l, Run: run})
+			off += uint64(l)
+			id += uint64(run) + uint64(ir.intn(3))
+		}
+		for i := 0; i < 9*(tag-1); i++ { // later versions have more entries: a longer root directory
+			l := uint32(1 + vr.intn(40))
+			es = append(es, Ent{ID: id, Off: off, Len: l, Run: 1})
+			off += uint64(l)
+			id += 1 + uint64(vr.intn(5))
+		}
+		zmax, _, _ := pmtiles.IDToZxy(es[len(es)-1].ID + uint64(es[len(es)-1].Run))
+		// gzip directories of different lengths: bytes of one version cut at another's root length do not parse
+		a := buildArchive(vr, es, vr.bytes(int(off)), archOpts{tree: treeOpts{depth: variant % 2, fan: 2, gzip: true, shorthand: true},
+			tileType: 2, tileComp: 1, meta: fmt.Sprintf(`{"v":%d}`, tag), minZoom: 0, maxZoom: zmax, pad: tag * 3})
+		v := &srvVersion{id: len(sr.versions), name: 0, tag: tag, arch: a}
+		sr.versions = append(sr.versions, v)
+		return v
+	}
+	runAll := func() {
+		for g := 0; g < 40; g++ {
+			pend := sr.gate.pendingList()
+			if len(pend) == 0 {
+				break
+			}
+			sr.release(pend[0], "ok")
+		}
+	}
+	v1 := mk(1)
+	sr.install(v1)
+	e := v1.arch.Ents[r.intn(len(v1.arch.Ents))]
+	z, x, y := pmtiles.IDToZxy(e.ID)
+	sr.start(0, uint64(z), uint64(x), uint64(y), 2) // warm
+	runAll()
+	sr.install(mk(2)) // the replacement completes here
+	sr.start(0, uint64(z), uint64(x), uint64(y), 2) // Q: proceeds on the cached v1 header and directories to its tile read
+	pend := sr.gate.pendingList()
+	sr.armFreeze()
+	e2 := v1.arch.Ents[r.intn(len(v1.arch.Ents))]
+	z2, x2, y2 := pmtiles.IDToZxy(e2.ID)
+	sr.start(0, uint64(z2), uint64(x2), uint64(y2), 2) // P: the loop is held at P's header lookup
+	if len(pend) > 0 {
+		sr.release(pend[0], "ok") // Q's tile read: stale -> Q queues its purging retry behind the held loop
+	}
+	sr.thaw()
+	sr.obs = append(sr.obs, sr.observe())
+	runAll()
+	sr.thaw()
+	sr.gate.releaseAll()
+	sr.checkResponses(false)
+	return sr.viol
+}
+
 func c08(r *rng, tier string, o *out) {
+	nm := 12
+	if tier == "thorough" {
+		nm = 300
+	}
+	for c := 0; c < nm; c++ {
+		line := fmt.Sprintf("micro %d %d", r.next()%1000000, c%2)
+		impl, viol := runCase("C08", line)
+		idx := o.emit(line, impl, true)
+		o.count("micro_loop_interleaving")
+		for _, v := range viol {
+			o.violation(idx, v)
+		}
+	}
 	n := 150
 	if tier == "thorough" {
 		n = 5000
 	}
+	sets := 1
+	if tier == "thorough" {
+		sets = 12
+	}
+	c08systematic(r, o, sets)
 	for c := 0; c < n; c++ {
 		sr := newSrvRun(64)
 		m := 1 + r.intn(2)
@@ -237,6 +409,17 @@ func c08(r *rng, tier string, o *out) {
 // srvReplay re-executes a recorded schedule (case line) against the real server.
 func srvReplay(line string) (string, []string) {
 	f := strings.Fields(line)
+	if f[0] == "micro" {
+		var seed uint64
+		var variant int
+		fmt.Sscan(f[1], &seed)
+		fmt.Sscan(f[2], &variant)
+		viol := c08microRun(seed, variant)
+		if len(viol) > 0 {
+			return "violated", viol
+		}
+		return "ok", nil
+	}
 
 	var cacheMB, nv int
 	fmt.Sscanf(f[1], "%d", &cacheMB)
